@@ -52,6 +52,8 @@ type Script struct {
 	// WriteLagUs: the server's transport returns from Write this long (virtual time) after the bytes reached
 	// the peer, as a transport with flush latency does. The peer may legally re-use an id in that window.
 	WriteLagUs int `json:"write_lag_us,omitempty"`
+	// Spell: memio.Respell mode applied to every envelope the peer sends (equivalent JSON spellings).
+	Spell int `json:"spell,omitempty"`
 }
 
 var callMethods = []string{"ping", "tools/list", "prompts/list", "resources/list", "tools/call:fast", "tools/call:park", "tools/call:park", "resources/read", "prompts/get", "logging/setLevel", "initialize", "completion/complete"}
@@ -108,6 +110,7 @@ func genScript(rt *rapid.T, transport string) Script {
 	s := Script{Transport: transport}
 	s.Version = rapid.SampledFrom([]string{"2024-11-05", "2025-03-26", "2025-03-26", "2025-06-18", "2025-11-25"}).Draw(rt, "version")
 	batchOK := s.Version < "2025-06-18"
+	s.Spell = rapid.SampledFrom([]int{0, 0, 0, 0, 1, 2, 3, 4}).Draw(rt, "spell")
 	if transport == "ndjson" {
 		s.WriteLagUs = rapid.SampledFrom([]int{0, 0, 0, 500}).Draw(rt, "write_lag")
 	}
@@ -773,7 +776,7 @@ func runNDJSON(s Script) (res vt.Result) {
 			} else {
 				line = wires[0]
 			}
-			if err := peer.Send(line); err != nil {
+			if err := peer.Send(memio.Respell(line, s.Spell)); err != nil {
 				res.Failf("step %d: cannot send, connection gone: %v", i, err)
 				return finish(res, s, &desc, nt)
 			}
@@ -852,6 +855,9 @@ func finish(res vt.Result, s Script, desc *strings.Builder, nt bool) vt.Result {
 		}
 	}
 	res.Class("transport_" + s.Transport)
+	if s.Spell != 0 {
+		res.Class(fmt.Sprintf("respelled_json_mode_%d", s.Spell))
+	}
 	return res
 }
 
